@@ -47,10 +47,12 @@ def run_main(sb_dir, case, variant, out_mode='abs'):
     elif case.get('output') is not None:
         if out_mode == 'rel':      # a relative output directory is meant relative to the directory the command runs in
             out_abs = os.path.join(work, 'rel', 'out'); args += ['-o', os.path.join('rel', 'out')]
+        elif out_mode in ('equal', 'above'):      # the input directory itself / the directory that holds the input: the pages land beside the sources
+            out_abs = p if out_mode == 'equal' and inp['kind'] == 'dir' else os.path.dirname(p); args += ['-o', os.path.relpath(out_abs, work)]
         else:
             out_abs = os.path.join(base, 'out'); args += ['-o', out_abs]
     start_cwd = os.getcwd(); stray_before = os.path.lexists(os.path.join(start_cwd, 'rel'))
-    before = T.snapshot(base)
+    before = T.snapshot(base); pre = T.read_tree(out_abs) if out_abs else {}      # what lies in the output directory already
     old = {k: os.environ.get(k) for k in ('HOME', 'XDG_CONFIG_HOME', 'CMINXDIR')}
     os.environ['HOME'] = home; os.environ['XDG_CONFIG_HOME'] = os.path.join(home, '.config'); os.environ.pop('CMINXDIR', None)
     cwd = os.getcwd(); stdout = io.StringIO(); status = 'ok'
@@ -84,7 +86,9 @@ def run_main(sb_dir, case, variant, out_mode='abs'):
     if not stray_before and os.path.lexists(os.path.join(start_cwd, 'rel')):      # written relative to some other directory: clean up, report
         import shutil
         stray = os.path.join(start_cwd, 'rel'); shutil.rmtree(stray, ignore_errors=True)
-    return dict(status=status, stdout=stdout.getvalue(), files=T.read_tree(out_abs) if out_abs else {}, changed_outside=changed, stray=stray)
+    files = T.read_tree(out_abs) if out_abs else {}
+    damaged = sorted(q for q in pre if files.get(q) != pre[q])
+    return dict(status=status, stdout=stdout.getvalue(), files={q: t for q, t in files.items() if q not in pre}, changed_outside=changed, stray=stray, damaged=damaged)
 
 
 def cli_suite(prop, seed, count, out, drv):
@@ -103,21 +107,24 @@ def cli_suite(prop, seed, count, out, drv):
             import copy
             case['inputs'].append(dict(kind='dir', name='second_' + case['inputs'][0]['name'], spelled='abs', children=copy.deepcopy(case['inputs'][0]['children'])))
             for c in case['inputs'][1]['children']: c.pop('dirlink', None)
-        case['output'] = None if (prop == 'C18' and not rel_mode) else 'abs'
+        # C18, every fourth case: -o names the input directory itself or the directory that holds the input (also for a lone file)
+        beside = g.choice(['equal', 'above']) if prop == 'C18' and n % 4 == 2 else None
+        case['output'] = None if (prop == 'C18' and not rel_mode and not beside) else 'abs'
+        case['cli_out'] = beside or ('sfile-rel' if sfile_mode else ('rel' if rel_mode else 'abs'))
         if prop == 'C15' and len(case.get('patterns', [])) < 2: case['patterns'] = list(case.get('patterns', [])) + ['*.txt', 'b.cmake', 'sub/']
         if case['settings'].get('cfg') and case['settings']['cfg'].get('trigger') is not None: case['settings']['cfg'].pop('trigger', None)
         key = (prop, 'cli', seed, n)
         with impl.Sandbox() as sb:
             api = T.run_real(sb.dir, case, variant='api')
-            cli = run_main(sb.dir, case, 'cli', out_mode='sfile-rel' if sfile_mode else ('rel' if rel_mode else 'abs'))
+            cli = run_main(sb.dir, case, 'cli', out_mode=case['cli_out'])
         out.traces_validated += 2; out.note_case(key, True); out.dist['cli:' + cli['status']] += 1
         rec = dict(suite='cli', key=key, case=case)
         if api['status'] != 'ok': continue
         if cli['status'] != 'ok':
             out.violations.append(dict(rec, detail=dict(kind='command line fails where the API succeeds', status=cli['status']), model_agrees=True)); continue
-        if cli.get('stray') or [c for c in cli.get('changed_outside', []) if not c.startswith('home') or c.endswith('.rst') or '/rel/' in c or c.endswith('/rel/')]:
+        if cli.get('stray') or cli.get('damaged') or [c for c in cli.get('changed_outside', []) if not c.startswith('home') or c.endswith('.rst') or '/rel/' in c or c.endswith('/rel/')]:
             out.violations.append(dict(rec, detail=dict(kind='the command line run created or changed something outside the requested output directory',
-                                                        stray=cli.get('stray'), changed=cli.get('changed_outside', [])[:6]), model_agrees=True)); continue
+                                                        stray=cli.get('stray'), changed=(cli.get('changed_outside', []) + cli.get('damaged', []))[:6]), model_agrees=True)); continue
         if prop == 'C18' and case['output'] is None:
             if cli['stdout'] != api['stdout']:
                 extra = [l for l in cli['stdout'].split('\n') if l not in api['stdout'].split('\n')][:5]
